@@ -35,105 +35,136 @@ macro_rules! check_v9_out {
     }};
 }
 
-/// C09: template flowset (<= 3 records, <= 2 fields each, padding) round trip.
-#[kani::proof]
-#[kani::stub(core::fmt::write, no_fmt)]
-fn ser_v9_template() {
-    const B: usize = 12;
-    const N: usize = 4 + B;
-    let mut p = v9::V9Parser::default();
-    let mut buf: [u8; N] = kani::any();
-    buf[0] = 0;
-    buf[1] = 0;
-    let len = be16(&buf, 2);
-    kani::assume(len >= 4 && len as usize <= N);
-    match v9::FlowSet::parse(&buf, &mut p) {
-        Ok((rem, fs)) => {
-            let pkt = v9::V9 { header: v9_header(), flowsets: vec![fs] };
-            check_v9_out!(pkt, buf, len as usize);
-            kani::cover!(len == 16);
-            kani::cover!(len == 11);
-            core::mem::forget(pkt);
-        }
-        Err(e) => {
-            assert!(false);
-            core::mem::forget(e);
-        }
-    }
-    core::mem::forget(p);
-}
-
-/// C09: options-template flowset round trip.
-#[kani::proof]
-#[kani::stub(core::fmt::write, no_fmt)]
-fn ser_v9_options_template() {
-    const B: usize = 14;
-    const N: usize = 4 + B;
-    let mut p = v9::V9Parser::default();
-    let mut buf: [u8; N] = kani::any();
-    buf[0] = 0;
-    buf[1] = 1;
-    let len = be16(&buf, 2);
-    kani::assume(len >= 4 && len as usize <= N);
-    // RFC 3954: scope/option lengths are multiples of 4 (else the record itself cannot be
-    // reproduced from the counts the library keeps)
-    kani::assume(buf[7] % 4 == 0 && buf[9] % 4 == 0);
-    match v9::FlowSet::parse(&buf, &mut p) {
-        Ok((rem, fs)) => {
-            let pkt = v9::V9 { header: v9_header(), flowsets: vec![fs] };
-            check_v9_out!(pkt, buf, len as usize);
-            kani::cover!(len == 18);
-            core::mem::forget(pkt);
-        }
-        Err(e) => {
-            assert!(false);
-            core::mem::forget(e);
-        }
-    }
-    core::mem::forget(p);
-}
-
-/// C09: data flowset (1 or 2 unsigned fields, <= 3 records, padding 0..=3) round trip,
-/// padding included.
-#[kani::proof]
-#[kani::stub(core::fmt::write, no_fmt)]
-#[kani::stub(netflow_parser::variable_versions::data_number::FieldValue::from_field_type, unsigned_kernel_model)]
-fn ser_v9_data() {
-    const B: usize = 7;
-    let l0: u16 = kani::any();
-    kani::assume(l0 >= 2 && l0 <= 4);
-    let mut p = v9::V9Parser::default();
-    p.templates.insert(256, v9::Template {
-        template_id: 256,
-        field_count: 1,
-        fields: vec![v9::TemplateField { field_type_number: 1, field_type: V9Field::InBytes, field_length: l0 }],
-    });
-    let body: [u8; B] = kani::any();
-    match v9::Data::parse(&body, &mut p, 256) {
-        Ok((rem, d)) => {
-            let mut buf = [0u8; 4 + B];
-            buf[0] = 1;
+/// C09: template flowset round trip, one harness per shape (field counts / padding written,
+/// everything else symbolic), as in s9::s_v9_template.
+macro_rules! ser_v9_template {
+    ($name:ident, $fcs:expr, $nrec:expr, $pad:expr) => {
+        #[kani::proof]
+        #[kani::stub(core::fmt::write, no_fmt)]
+        fn $name() {
+            const FCS: [u16; 3] = $fcs;
+            const NREC: usize = $nrec;
+            const PAD: usize = $pad;
+            const B: usize = {
+                let mut t = PAD;
+                let mut k = 0;
+                while k < NREC {
+                    t += 4 + 4 * FCS[k] as usize;
+                    k += 1;
+                }
+                t
+            };
+            const N: usize = 4 + B;
+            let mut p = v9::V9Parser::default();
+            let mut buf: [u8; N] = kani::any();
+            buf[0] = 0;
             buf[1] = 0;
-            buf[3] = (4 + B) as u8;
+            put16(&mut buf, 2, N as u16);
+            let mut pos = 4;
             let mut k = 0;
-            while k < B {
-                buf[4 + k] = body[k];
+            while k < NREC {
+                put16(&mut buf, pos + 2, FCS[k]);
+                pos += 4 + 4 * FCS[k] as usize;
                 k += 1;
             }
-            let fs = v9::FlowSet { header: v9::FlowSetHeader { flowset_id: 256, length: (4 + B) as u16 }, body: v9::FlowSetBody::Data(d) };
-            let pkt = v9::V9 { header: v9_header(), flowsets: vec![fs] };
-            check_v9_out!(pkt, buf, 4 + B);
-            kani::cover!(l0 == 2);
-            kani::cover!(l0 == 4);
-            core::mem::forget(pkt);
+            match v9::FlowSet::parse(&buf, &mut p) {
+                Ok((rem, fs)) => {
+                    let pkt = v9::V9 { header: v9_header(), flowsets: vec![fs] };
+                    check_v9_out!(pkt, buf, N);
+                    core::mem::forget(pkt);
+                }
+                Err(e) => {
+                    assert!(false);
+                    core::mem::forget(e);
+                }
+            }
+            core::mem::forget(p);
         }
-        Err(e) => {
-            assert!(false);
-            core::mem::forget(e);
-        }
-    }
-    core::mem::forget(p);
+    };
 }
+ser_v9_template!(ser_v9_template_2f, [2, 0, 0], 1, 0);
+ser_v9_template!(ser_v9_template_1f_pad3, [1, 0, 0], 1, 3);
+ser_v9_template!(ser_v9_template_1f_1f, [1, 1, 0], 2, 2);
+
+/// C09: options-template flowset round trip (shape written).
+macro_rules! ser_v9_options_template {
+    ($name:ident, $sl:expr, $ol:expr, $pad:expr) => {
+        #[kani::proof]
+        #[kani::stub(core::fmt::write, no_fmt)]
+        fn $name() {
+            const SL: usize = $sl;
+            const OL: usize = $ol;
+            const PAD: usize = $pad;
+            const N: usize = 4 + 6 + 4 * (SL + OL) + PAD;
+            let mut p = v9::V9Parser::default();
+            let mut buf: [u8; N] = kani::any();
+            buf[0] = 0;
+            buf[1] = 1;
+            put16(&mut buf, 2, N as u16);
+            put16(&mut buf, 6, (4 * SL) as u16);
+            put16(&mut buf, 8, (4 * OL) as u16);
+            match v9::FlowSet::parse(&buf, &mut p) {
+                Ok((rem, fs)) => {
+                    let pkt = v9::V9 { header: v9_header(), flowsets: vec![fs] };
+                    check_v9_out!(pkt, buf, N);
+                    core::mem::forget(pkt);
+                }
+                Err(e) => {
+                    assert!(false);
+                    core::mem::forget(e);
+                }
+            }
+            core::mem::forget(p);
+        }
+    };
+}
+ser_v9_options_template!(ser_v9_options_template_1_1, 1, 1, 2);
+
+/// C09: data flowset (one unsigned field whose length is written: 2, 3 or 4; 7-byte body =>
+/// 3/2/1 records + 1/1/3 padding bytes) round trip, padding included.
+macro_rules! ser_v9_data {
+    ($name:ident, $l0:expr) => {
+        #[kani::proof]
+        #[kani::stub(core::fmt::write, no_fmt)]
+        #[kani::stub(netflow_parser::variable_versions::data_number::FieldValue::from_field_type, unsigned_kernel_model)]
+        fn $name() {
+            const B: usize = 7;
+            let mut p = v9::V9Parser::default();
+            p.templates.insert(256, v9::Template {
+                template_id: 256,
+                field_count: 1,
+                fields: vec![v9::TemplateField { field_type_number: 1, field_type: V9Field::InBytes, field_length: $l0 }],
+            });
+            let body: [u8; B] = kani::any();
+            match v9::Data::parse(&body, &mut p, 256) {
+                Ok((rem, d)) => {
+                    assert!(d.fields.len() == B / $l0 && d.padding.len() == B % $l0);
+                    let mut buf = [0u8; 4 + B];
+                    buf[0] = 1;
+                    buf[1] = 0;
+                    buf[3] = (4 + B) as u8;
+                    let mut k = 0;
+                    while k < B {
+                        buf[4 + k] = body[k];
+                        k += 1;
+                    }
+                    let fs = v9::FlowSet { header: v9::FlowSetHeader { flowset_id: 256, length: (4 + B) as u16 }, body: v9::FlowSetBody::Data(d) };
+                    let pkt = v9::V9 { header: v9_header(), flowsets: vec![fs] };
+                    check_v9_out!(pkt, buf, 4 + B);
+                    core::mem::forget(pkt);
+                }
+                Err(e) => {
+                    assert!(false);
+                    core::mem::forget(e);
+                }
+            }
+            core::mem::forget(p);
+        }
+    };
+}
+ser_v9_data!(ser_v9_data_2, 2);
+ser_v9_data!(ser_v9_data_3, 3);
+ser_v9_data!(ser_v9_data_4, 4);
 
 /// C09: options-data flowset (one record: 1 scope field + 1 option field, padding) round trip.
 #[kani::proof]
@@ -207,38 +238,42 @@ macro_rules! check_ipfix_out {
     }};
 }
 
-/// C10: template set, one record of <= 2 *plain* specifiers + padding, round trip.
-/// (enterprise specifiers: known finding C10-enterprise-bit, witness below)
+/// C10: template set round trip, shapes as in s10::s_ipfix_template (field count, E bits,
+/// padding written).  Plain specifiers must round-trip; enterprise specifiers are the known
+/// finding C10-enterprise-bit (witness harness).
 macro_rules! ser_ipfix_template {
-    ($name:ident, $plain:expr) => {
+    ($name:ident, $fc:expr, $ent:expr, $pad:expr) => {
         #[kani::proof]
         #[kani::stub(core::fmt::write, no_fmt)]
         fn $name() {
-            const N: usize = 4 + 4 + 8 + 4 + 3;
+            const FC: usize = $fc;
+            const ENT: [bool; 2] = $ent;
+            const PAD: usize = $pad;
+            const RL: usize = 4 + (if FC >= 1 { if ENT[0] { 8 } else { 4 } } else { 0 }) + (if FC >= 2 { if ENT[1] { 8 } else { 4 } } else { 0 });
+            const N: usize = 4 + RL + PAD;
             let mut p = ipfix::IPFixParser::default();
             let mut buf: [u8; N] = kani::any();
             buf[0] = 0;
             buf[1] = 2;
-            let len = be16(&buf, 2);
-            kani::assume(len >= 12 && len as usize <= N);
-            let fc = be16(&buf, 6);
-            kani::assume(fc >= 1 && fc <= 2);
-            let e0 = buf[8] >= 128;
-            let o1 = if e0 { 16 } else { 12 };
-            let e1 = fc == 2 && buf[o1] >= 128;
-            if $plain {
-                kani::assume(!e0 && !e1);
-            } else {
-                kani::assume(e0 || e1);
+            put16(&mut buf, 2, N as u16);
+            put16(&mut buf, 6, FC as u16);
+            let mut pos = 8;
+            let mut j = 0;
+            while j < FC {
+                if ENT[j] {
+                    buf[pos] |= 0x80;
+                    pos += 8;
+                } else {
+                    buf[pos] &= 0x7f;
+                    pos += 4;
+                }
+                j += 1;
             }
-            let rl = 4 + (if e0 { 8 } else { 4 }) + (if fc == 2 { if e1 { 8 } else { 4 } } else { 0 });
-            kani::assume(4 + rl <= len as usize && len as usize - 4 - rl < 4);
             kani::assume(be16(&buf, 10) > 0);
             match ipfix::FlowSet::parse(&buf, &mut p) {
                 Ok((rem, fs)) => {
                     let pkt = ipfix::IPFix { header: ipfix_header(), flowsets: vec![fs] };
-                    check_ipfix_out!(pkt, buf, len as usize);
-                    kani::cover!(fc == 2);
+                    check_ipfix_out!(pkt, buf, N);
                     core::mem::forget(pkt);
                 }
                 Err(e) => {
@@ -250,49 +285,53 @@ macro_rules! ser_ipfix_template {
         }
     };
 }
-ser_ipfix_template!(ser_ipfix_template_plain, true);
-ser_ipfix_template!(ser_ipfix_template_enterprise_kf, false);
+ser_ipfix_template!(ser_ipfix_template_plain, 2, [false, false], 2);
+ser_ipfix_template!(ser_ipfix_template_plain_1, 1, [false, false], 3);
+ser_ipfix_template!(ser_ipfix_template_enterprise_kf, 2, [true, false], 0);
 
-/// C10: data set with fixed-length unsigned fields round trip (padding included).
-#[kani::proof]
-#[kani::stub(core::fmt::write, no_fmt)]
-#[kani::stub(netflow_parser::variable_versions::data_number::FieldValue::from_field_type, unsigned_kernel_model)]
-fn ser_ipfix_data() {
-    const B: usize = 7;
-    let l0: u16 = kani::any();
-    kani::assume(l0 >= 2 && l0 <= 4);
-    let mut p = ipfix::IPFixParser::default();
-    p.templates.insert(256, ipfix::Template {
-        template_id: 256,
-        field_count: 1,
-        fields: vec![ipfix::TemplateField { field_type_number: 1, field_type: IPFixField::OctetDeltaCount, field_length: l0, enterprise_number: None }],
-        padding: vec![],
-    });
-    let body: [u8; B] = kani::any();
-    match ipfix::Data::parse(&body, &mut p, 256) {
-        Ok((rem, d)) => {
-            let mut buf = [0u8; 4 + B];
-            buf[0] = 1;
-            buf[1] = 0;
-            buf[3] = (4 + B) as u8;
-            let mut k = 0;
-            while k < B {
-                buf[4 + k] = body[k];
-                k += 1;
+/// C10: data set with one fixed-length unsigned field (length written) round trip, padding included.
+macro_rules! ser_ipfix_data {
+    ($name:ident, $l0:expr) => {
+        #[kani::proof]
+        #[kani::stub(core::fmt::write, no_fmt)]
+        #[kani::stub(netflow_parser::variable_versions::data_number::FieldValue::from_field_type, unsigned_kernel_model)]
+        fn $name() {
+            const B: usize = 5;
+            let mut p = ipfix::IPFixParser::default();
+            p.templates.insert(256, ipfix::Template {
+                template_id: 256,
+                field_count: 1,
+                fields: vec![ipfix::TemplateField { field_type_number: 1, field_type: IPFixField::OctetDeltaCount, field_length: $l0, enterprise_number: None }],
+                padding: vec![],
+            });
+            let body: [u8; B] = kani::any();
+            match ipfix::Data::parse(&body, &mut p, 256) {
+                Ok((rem, d)) => {
+                    let mut buf = [0u8; 4 + B];
+                    buf[0] = 1;
+                    buf[1] = 0;
+                    buf[3] = (4 + B) as u8;
+                    let mut k = 0;
+                    while k < B {
+                        buf[4 + k] = body[k];
+                        k += 1;
+                    }
+                    let fs = ipfix::FlowSet { header: ipfix::FlowSetHeader { header_id: 256, length: (4 + B) as u16 }, body: ipfix::FlowSetBody::Data(d) };
+                    let pkt = ipfix::IPFix { header: ipfix_header(), flowsets: vec![fs] };
+                    check_ipfix_out!(pkt, buf, 4 + B);
+                    core::mem::forget(pkt);
+                }
+                Err(e) => {
+                    assert!(false);
+                    core::mem::forget(e);
+                }
             }
-            let fs = ipfix::FlowSet { header: ipfix::FlowSetHeader { header_id: 256, length: (4 + B) as u16 }, body: ipfix::FlowSetBody::Data(d) };
-            let pkt = ipfix::IPFix { header: ipfix_header(), flowsets: vec![fs] };
-            check_ipfix_out!(pkt, buf, 4 + B);
-            kani::cover!(l0 == 3);
-            core::mem::forget(pkt);
+            core::mem::forget(p);
         }
-        Err(e) => {
-            assert!(false);
-            core::mem::forget(e);
-        }
-    }
-    core::mem::forget(p);
+    };
 }
+ser_ipfix_data!(ser_ipfix_data_2, 2);
+ser_ipfix_data!(ser_ipfix_data_4, 4);
 
 /// Known-finding witness C10-varlen-prefix: the length prefix of a variable-length field is
 /// not re-exported.
